@@ -433,3 +433,20 @@ Proof.
 Qed.
 
 End TokenThms.
+
+(* finding: configured serials 65541 and 5 *)
+Definition wrong_serial_statement : Prop :=
+  forall (mac : list N -> list N -> list N), (forall k d, length (mac k d) = 32%nat) ->
+  forall key sn sn' exp g now r, sn' <> sn ->
+  authenticate mac key sn' now (issue_at mac key sn exp g) <> TOk r.
+
+Lemma wrong_serial_refuted : ~ wrong_serial_statement.
+Proof.
+  intros H.
+  set (mac := fun (_ _ : list N) => repeat 0 32).
+  assert (L : forall k d, length (mac k d) = 32%nat) by reflexivity.
+  set (g := mkG 1 20 0 0).
+  apply (H mac L [] 65541%Z 5%Z 3600000000000%Z g 0%Z (mkR 1 20 0)); [discriminate|].
+  rewrite serial_alias. change (65541 mod 65536)%Z with 5%Z.
+  rewrite issued_authenticate by apply L. reflexivity.
+Qed.
